@@ -210,6 +210,15 @@ func build(id string, race bool) (string, error) {
 	cmd := exec.Command("go", args...)
 	cmd.Dir = Root
 	cmd.Env = append(os.Environ(), "GOFLAGS=-mod=mod", "GOPROXY=off", "GOSUMDB=off", "GOTOOLCHAIN=local")
+	// see check.sh: no build while tools/seed_eval.sh has a seeded change applied to /repo
+	if os.Getenv("VERIF_NO_BUILD_LOCK") == "" {
+		if lf, lerr := os.OpenFile("/repo/.git/verif-build.lock", os.O_CREATE|os.O_RDWR, 0644); lerr == nil {
+			if syscall.Flock(int(lf.Fd()), syscall.LOCK_EX) == nil {
+				defer syscall.Flock(int(lf.Fd()), syscall.LOCK_UN)
+			}
+			defer lf.Close()
+		}
+	}
 	b, err := cmd.CombinedOutput()
 	if err != nil {
 		return "", fmt.Errorf("go build failed: %v\n%s", err, b)
